@@ -84,6 +84,11 @@ func (se snappyEncoding) Unmarshal(buf []byte, msg drpc.Message) (err error) {
 	if err != nil {
 		return
 	}
+	// a snappy block cannot expand by more than 64/3 (the densest element, a 3-byte copy, yields at most
+	// 64 bytes): a larger declared length is corrupt - reject it before growing the buffer to it
+	if decodedLen > 32*len(buf)+64 {
+		return snappy.ErrCorrupt
+	}
 
 	var unmarshalBuf *snappyBuf
 	mBufPool := snappyBytesPool.Get()
